@@ -1210,6 +1210,10 @@ class GenThunk:
         self.run(out.append)
         return out
 
+    def __iter__(self):
+        """consumed by list()/tuple()/join()/a comprehension/`yield from`: the body runs to its end first (for such consumers that is what CPython does too, item by item)"""
+        return iter(self.items(None))
+
     def __repr__(self):
         return f"<generator {self.name}>"
 
